@@ -100,9 +100,19 @@ def r_listeners(ctx) -> RuleResult:
         res.inst(fi.fq, f"{what}: default error listeners removed on every path", "ok",
                  detail="removed" if ok_rm else "kept on some path: errors are printed as well; the raising listener (next instance) still ends the parse")
         good_adds = []
+        unread_adds = []
         for a in adds:
             arg = a.args[0] if a.args else None
             lcls_list = []
+            if isinstance(arg, ast.Name) and arg.id not in params_of(fn):
+                # a listener object kept under a name: a local, or a module-level instance shared by all parses
+                d_ = single_def(fn, arg.id)
+                if d_ is None:
+                    r0 = repo.resolve(fi.module, arg.id)
+                    if r0 and r0[0] == "const":
+                        d_ = r0[1].assigns.get(r0[2])
+                if isinstance(d_, ast.Call):
+                    arg = d_
             if isinstance(arg, ast.Call):
                 r = repo.resolve_dotted(fi.module, arg.func)
                 if r and r[0] == "class":
@@ -119,6 +129,8 @@ def r_listeners(ctx) -> RuleResult:
                             continue
                     raise AnalysisError(f"R-LISTENERS: cannot tell which listener object {fi.qualname} receives at {cs.caller.loc(cs.node)}")
             all_good = bool(lcls_list)
+            if not lcls_list:
+                unread_adds.append(a)
             for lcls in lcls_list:
                 se = repo.mro_method(lcls, "syntaxError")
                 if se is None:
@@ -137,6 +149,8 @@ def r_listeners(ctx) -> RuleResult:
         # the add must come after the remove (otherwise it is removed again)
         ok_order = ok_add and all(any(cfg.dominates(cfg.stmt_node_containing(r), cfg.stmt_node_containing(a)) for r in removes) for a in good_adds) if removes else ok_add
         res.inst(fi.fq, f"{what}: raising listener registered after the removal on every path", "ok" if ok_add and ok_order else "fail")
+        if not ok_add and unread_adds:
+            raise AnalysisError(f"R-LISTENERS: cannot tell which listener object `{short(unread_adds[0], 60)}` in {fi.qualname} registers on the {what}")
         if not ok_add:
             res.fail(Finding("R-LISTENERS", fi.module.rel, fi.qualname, f"{var}.addErrorListener(...)",
                              f"no raising error listener is registered on the {what} on every path: a syntax error does not become {exc.name}", line=anchor_node.lineno))
@@ -323,6 +337,7 @@ def r_escape(ctx) -> RuleResult:
                     work.append(x)
         return all(l.isdigit() for l in lits) and refs <= {"GREATER_THAN_NINE"}
 
+    asserts = []
     for fi in fis:
         for n in own_walk(fi.node):
             if isinstance(n, ast.Raise):
@@ -334,8 +349,7 @@ def r_escape(ctx) -> RuleResult:
                 if not ok:
                     res.fail(Finding("R-ESCAPE", fi.module.rel, fi.qualname, norm(n), f"raises something other than {exc.name}", line=n.lineno))
             if isinstance(n, ast.Assert):
-                res.inst(fi.fq, short(n, 70), "fail")
-                res.fail(Finding("R-ESCAPE", fi.module.rel, fi.qualname, norm(n), "an assertion in the parser escapes as AssertionError", line=n.lineno))
+                asserts.append((fi, n))
             if isinstance(n, ast.Subscript) and isinstance(n.ctx, ast.Load) and isinstance(n.value, ast.Name):
                 tbl = n.value.id
                 if tbl == "ELEMENT_ATTRS":
@@ -398,6 +412,36 @@ def r_escape(ctx) -> RuleResult:
                 res.inst(fi.fq, short(n), "ok" if ok else "fail", detail=f"text of rule `{rule_name}` is a digit string by the grammar")
                 if not ok:
                     res.fail(Finding("R-ESCAPE", fi.module.rel, fi.qualname, norm(n), "int() of parse-tree text that the grammar does not restrict to digits: ValueError instead of the parser's exception", line=n.lineno))
+    if asserts:
+        # an assertion that can fail lets AssertionError out instead of the parser's exception.  Shown failing on a sample
+        # (what a string stores in the listener, followed with the sample evaluator): reported; not shown: no verdict
+        from ..concrete import PState
+        from .readers import listener_evaluator
+        le = listener_evaluator(ctx)
+        witness = None
+        if not isinstance(le, str):
+            pe, env, lis_, tg, adders_, (key0, _k) = le
+            A, B, P = adders_["atoms"].name, adders_["bond"].name, adders_["attr"].name
+            progs = [("C2/(1-2)", [f"L.{A}('C', 2)", f"L.{B}(1, 2)"]), ("C2/(2-1)", [f"L.{A}('C', 2)", f"L.{B}(2, 1)"]), ("C2/(1-3)", [f"L.{A}('C', 2)", f"L.{B}(1, 3)"]),
+                     ("/(1-2)", [f"L.{B}(1, 2)"]), (f"C//(1:{key0}=13)", [f"L.{A}('C', 1)", f"L.{P}(1, {key0!r}, 13)"]), (f"C//(2:{key0}=13)", [f"L.{A}('C', 1)", f"L.{P}(2, {key0!r}, 13)"]),
+                     (f"C//(1:{key0}=13)(1:{key0}=13)", [f"L.{A}('C', 1)", f"L.{P}(1, {key0!r}, 13)", f"L.{P}(1, {key0!r}, 13)"]), ("He/", [f"L.{A}('He', 1)"]), ("/", [])]
+            for text, lines_ in progs:
+                src = [f"L = {lis_.name}()"] + lines_ + ["g = L.to_graph()"]
+                del pe.gaps[:]
+                falls, lefts = pe.block(ast.parse("\n".join(src)).body, [PState(dict(env))])
+                if any(how == "raise" and v == "AssertionError" for _s, how, v in lefts) and not falls and all(how == "raise" and v == "AssertionError" for _s, how, v in lefts):
+                    witness = text
+                    break
+        for fi_a, n in asserts:
+            if witness is not None:
+                res.inst(fi_a.fq, short(n, 70), "fail", detail=f"sample {witness!r}")
+                res.fail(Finding("R-ESCAPE", fi_a.module.rel, fi_a.qualname, norm(n),
+                                 f"an assertion in the parser escapes as AssertionError: following what the string {witness!r} stores in the listener ends in AssertionError on every path", line=n.lineno))
+                break
+        else:
+            fi_a, n = asserts[0]
+            raise AnalysisError(f"R-ESCAPE: `{short(n, 60)}` in {fi_a.qualname}: whether this assertion can fail for some string (AssertionError instead of the parser's exception) is not decided "
+                                "(it does not fail on the sample strings)")
     if len(res.instances) < 6:
         raise AnalysisError(f"R-ESCAPE: only {len(res.instances)} obligations found in the parser; its shape changed")
     res.notes.append("index subscripts are discharged by R-ORDERING; positions handed to the error listeners by ANTLR are trusted to lie inside the input")
@@ -405,6 +449,18 @@ def r_escape(ctx) -> RuleResult:
 
 
 # --------------------------------------------------------------------------- R-ALIAS
+
+
+def _memoised_callee(ctx, fi: FuncInfo, call: ast.Call) -> Optional[str]:
+    """name of the repository function `call` goes to if that function is wrapped by functools.cache / lru_cache"""
+    cs = ctx.cg.resolve_call(fi, call, ctx.cg.local_types(fi), set(params_of(fi.node)))
+    if cs.kind != "tucan":
+        return None
+    for d in cs.target.node.decorator_list:
+        nm = norm(d.func if isinstance(d, ast.Call) else d).split(".")[-1]
+        if nm in ("cache", "lru_cache", "cached", "memoize", "memoise"):
+            return cs.target.name
+    return None
 
 
 def _is_dict_expr(ctx, fi: FuncInfo, e: Optional[ast.expr], depth=0) -> bool:
@@ -582,6 +638,9 @@ def r_alias(ctx) -> RuleResult:
             elif isinstance(v, ast.Call) and isinstance(v.func, ast.Name) and v.func.id in ("dict", "deepcopy") and v.args and isinstance(v.args[0], ast.Name) \
                     and v.args[0].id not in per_iteration and _is_dict_expr(ctx, fi, v.args[0]):
                 out.append(("copied", v.args[0].id))
+            elif isinstance(v, ast.Call) and _is_dict_expr(ctx, fi, v) and _memoised_callee(ctx, fi, v) is not None:
+                # a function that remembers its results hands the same dictionary object to every caller that asks with the same arguments
+                out.append(("shared", f"{_memoised_callee(ctx, fi, v)}(...) [memoised]"))
             elif isinstance(v, (ast.Dict, ast.DictComp)) or (isinstance(v, ast.Call) and _is_dict_expr(ctx, fi, v)) or \
                     (isinstance(v, ast.Name) and v.id in per_iteration and _is_dict_expr(ctx, fi, v)):
                 out.append(("fresh", None))
@@ -600,10 +659,27 @@ def r_alias(ctx) -> RuleResult:
                 if kind == "shared":
                     n += 1
                     tab = _receiving_table(fn, x)
+                    if tab is None and any(isinstance(r_, ast.Return) and r_.value is x for r_ in own_walk(fn)):
+                        # handed back as it is: the names the callers give it
+                        homes = []
+                        for g in ctx.cg.funcs.values():
+                            for cs in ctx.cg.sites.get(g.fq, []):
+                                if cs.kind == "tucan" and cs.target.fq == fi.fq:
+                                    st_ = next((s_ for s_ in own_walk(g.node) if isinstance(s_, ast.Assign) and s_.value is cs.node and len(s_.targets) == 1
+                                                and isinstance(s_.targets[0], ast.Name)), None)
+                                    homes.append((g, st_.targets[0]) if st_ is not None else None)
+                        if homes and all(h is not None for h in homes) and all(_written_through(ctx, g_, t_) is None for g_, t_ in homes):
+                            res.inst(fi.fq, short(x), "ok", detail=f"`{nm}` is stored for several entries of the returned table, and no caller writes to an entry of it (graph construction copies them)")
+                            continue
                     if tab is not None and _written_through(ctx, fi, tab) is None:
                         res.inst(fi.fq, short(x), "ok", detail=f"`{nm}` is stored for several entries of `{short(tab)}`, and no entry of that table is written to afterwards (graph construction copies them)")
                         continue
                     res.inst(fi.fq, short(x), "fail")
+                    if "[memoised]" in nm:
+                        res.fail(Finding("R-ALIAS", fi.module.rel, fi.qualname, norm(x),
+                                         f"`{nm.split('(')[0]}` remembers its results, so it hands out one dictionary object per distinct argument: entries made from equal arguments "
+                                         "(also those of files read later in the same process) share it, and entries of this table are written to afterwards", line=x.lineno))
+                        continue
                     res.fail(Finding("R-ALIAS", fi.module.rel, fi.qualname, norm(x), f"the same dictionary object `{nm}` is inserted once per iteration: all these atoms share their attributes"
                                      if not isinstance(x, ast.DictComp) else f"the same dictionary object `{nm}` becomes the value of every key", line=x.lineno))
                 elif kind:
